@@ -229,4 +229,16 @@ def syncRequest (w : World) (τ : Option Int) : World × Obs := value (asyncRequ
 /-- `timed(proxy, τ)(*args)`: `res = async_(proxy)(*args); res.set_expiry(τ); return res` -/
 def timedCall (w : World) (τ : Option Int) : World := setExpiry (asyncRequest w none) τ
 
+/-- `helpers.timed`: the wrapper keeps the *timeout value* (`self.timeout = timeout`), not a deadline; the
+deadline of each result is computed when that call is made -/
+structure Timed where
+  timeout : Option Int
+  deriving DecidableEq, Repr
+
+/-- `timed.__init__(proxy, timeout)` -/
+def Timed.make (τ : Option Int) : Timed := ⟨τ⟩
+
+/-- `timed.__call__`: `res = self.proxy(*args); res.set_expiry(self.timeout); return res` -/
+def Timed.call (w : World) (t : Timed) : World := timedCall w t.timeout
+
 end Rpyc.Async
